@@ -248,8 +248,13 @@ def _len_arms(if_node: ast.If, subject: str):
         t = cur.test
         ok = isinstance(t, ast.Compare) and len(t.ops) == 1 and isinstance(t.left, ast.Call) and isinstance(t.left.func, ast.Name) and t.left.func.id == "len" and t.left.args and ast.unparse(t.left.args[0]) == subject and isinstance(t.comparators[0], ast.Constant)
         if not ok:
-            return None
-        arms.append((type(t.ops[0]).__name__, t.comparators[0].value, cur.body))
+            if not arms:
+                return None
+            # an arm that tests something else than the length: every length that reaches it is handled only
+            # under that extra condition - for the registration table this means "not registered on every path"
+            arms.append(("Cond", ast.unparse(t), cur.body))
+        else:
+            arms.append((type(t.ops[0]).__name__, t.comparators[0].value, cur.body))
         if len(cur.orelse) == 1 and isinstance(cur.orelse[0], ast.If):
             cur = cur.orelse[0]
             continue
@@ -259,6 +264,8 @@ def _len_arms(if_node: ast.If, subject: str):
 def _covers(arms, else_body, n: int):
     """body executed for a clause of length n"""
     for op, c, body in arms:
+        if op == "Cond":
+            return []  # reached only if the extra condition holds: no body is executed on every path
         if (op == "Eq" and n == c) or (op == "Gt" and n > c) or (op == "GtE" and n >= c) or (op == "Lt" and n < c) or (op == "LtE" and n <= c):
             return body
     return else_body
@@ -281,6 +288,44 @@ def _registers(body, subject: str, idx_ok, want: str):
     if {"b0", "b1"} <= pos or {"w0", "w1"} <= pos:
         return True
     return False
+
+
+def check_binary_add(ctx: Ctx, oid: str):
+    """BinaryImplications.add is how a two-literal clause becomes visible to propagation (input clauses, learned and
+    blocking clauses, the reduce_db rebuild all go through it): on every path it files (b, idx) under a and (a, idx)
+    under b, whatever the two literals are ([x, x] is the unit fact x and must be filed like any other pair)."""
+    m = ctx.repo.module("sat")
+    f = m.funcs.get("BinaryImplications.add")
+    ctx.require(f is not None, "BinaryImplications.add not found")
+    ctx.touch(f)
+    cfg = cfg_of(f.node)
+    ps = [x for x in f.params if x != "self"]
+    a, b = ps[0], ps[1]
+
+    def filed(stmt):
+        # (key literal, stored literal) of `self.neg[k].append((lit, idx))` / `self.pos[-k].append((lit, idx))`
+        if not (isinstance(stmt, ast.Expr) and isinstance(stmt.value, ast.Call) and isinstance(stmt.value.func, ast.Attribute) and stmt.value.func.attr == "append"):
+            return None
+        tgt = stmt.value.func.value
+        if not (isinstance(tgt, ast.Subscript) and stmt.value.args and isinstance(stmt.value.args[0], ast.Tuple)):
+            return None
+        key = {x.id for x in ast.walk(tgt.slice) if isinstance(x, ast.Name)}
+        el = stmt.value.args[0].elts[0]
+        return (next(iter(key)) if len(key) == 1 else "?", el.id if isinstance(el, ast.Name) else "?")
+
+    bad = None
+    paths = cfg.paths(cfg.entry, cfg.exit)
+    for pth in paths:
+        got = sorted(x for x in (filed(cfg.nodes[i].ast) for i in pth if cfg.nodes[i].kind == "stmt") if x)
+        if got != sorted([(a, b), (b, a)]):
+            # the one pair that may stay unfiled is the tautology (x, -x): it constrains nothing
+            taut = {f"{a} == -{b}", f"-{a} == {b}", f"{b} == -{a}", f"-{b} == {a}"}
+            skipped_tautology = not got and any(cfg.nodes[i].kind == "branch" and cfg.nodes[i].pol is True and cfg.nodes[i].test is not None and cfg.nodes[i].test.ast is not None and ast.unparse(cfg.nodes[i].test.ast) in taut for i in pth)
+            if skipped_tautology:
+                continue
+            bad = got
+            break
+    ctx.ob(oid, "R25 REGISTRATION-TABLE", f, "BinaryImplications.add files both directions of the clause on every path (no pair of literals is left out)", bool(paths) and bad is None, f"a path through add files {bad}: a binary clause that is not filed is in no watch list either, so nothing enforces it", node=f.node)
 
 
 def check_add_sites(ctx: Ctx, roles: SatRoles, oid: str):
